@@ -17,13 +17,17 @@ TECHNIQUE = (
     "(transmission count, identical retransmissions, returned reply identity, exception class and cause, reconnects, time bound). "
     "Besides single requests on a fresh client, sequences of two or three exchanges use ONE config object, ONE request object "
     "(identifier re-assigned in between) and one client whose defaults are re-assigned (or a second live client with other "
-    "defaults); every exchange of a sequence is judged on its own with the values in force for that request"
+    "defaults); every exchange of a sequence is judged on its own with the values in force for that request. Silence inside a "
+    "pending chain is scripted both in client polls and in seconds (a reply arriving after a fraction of the silence limit "
+    "max(timeout, 20 s)), with effective timeouts on both sides of the client's poll interval"
 )
 LEVEL_TEXT = (
     "Fault enumeration: every event script up to length 4 (quick) / 5 (thorough) over the 11-letter alphabet {timeout, silence, "
     "connection error on read, on write, empty read, busy, pending, mismatch, malformed, negative final, positive final} x "
     "max_retry 0..3 x {client defaults, per-request overrides}, seeded random scripts up to length 12, and long runs crossing the "
-    "pending limit (119/120/121 replies) and the silence limit, all in virtual time; plus usage sequences: every script up to "
+    "pending limit (119/120/121 replies) and the silence limit, all in virtual time; replies that follow a pending after 5..93 % of "
+    "the silence limit in seconds, for timeouts 0.05 s .. 30 s (below, at and above the 0.5 s poll interval; client default and "
+    "per-request override) in the long runs, in half of the random scripts and of the sequence exchanges; plus usage sequences: every script up to "
     "length 3 (quick) / 4 (thorough) as the second exchange of a sequence x {shared config object sets nothing, max_retry, timeout, "
     "both} with drawn first/third exchanges, client defaults (re-assigned on one client or held by a second live client), request "
     "object reuse (identifier re-assigned / unchanged / fresh, typed and raw), slow-but-in-time first replies, and silence-limit "
@@ -31,7 +35,7 @@ LEVEL_TEXT = (
 )
 LEVEL_NOTE = "Trusted: reference machine vf/models/client.py (appendix B), scripted transport vf/scripted_transport.py, virtual clock vf/vtime.py."
 RULE = (
-    "cases = (script, max_retry, timeout source, timeout value), and for sequences (sequence description, index of the exchange); "
+    "cases = (script, max_retry, timeout source, timeout value, seconds of silence before replies that follow a pending), and for sequences (sequence description, index of the exchange); "
     "scripts enumerated exhaustively to the length bound plus seeded random and long-run scripts; non-trivial = script contains at "
     "least one fault/pending/busy letter, or the exchange is a later exchange of a sequence; distinct = distinct case tuples; "
     "distinct_traces = distinct recorded (write/read/reconnect, outcome) sequences"
@@ -42,6 +46,7 @@ ASSUMPTIONS = [
     "pending overflow may end with any exception type, at 120 or 121 pending replies",
     "a per-request config field that is unset takes the default of the client the request is sent on, at the time of that request; "
     "a reply is matched against the PDU the request object has when request() is called",
+    "a reply that follows a responsePending after at most max(timeout, 20 s) - 0.5 s of silence is 'received in time' for every timeout > 0, however the client slices its waiting into polls",
     "line-based transports (LinesTransportMixin) are not driven here: an end of stream is the scripted 'empty read' event (C08/C19 drive the real line transports)",
 ]
 EXHAUSTIVE = {"quick": True, "thorough": True}
@@ -81,6 +86,15 @@ def required_reach(tier: str) -> dict[str, int]:
               "seq.later-use.request:identifier-reassigned+reply-for-old-identifier-scripted": 20,
               "seq.later-use.request:same-object-unchanged": 200, "seq.later-use.request:fresh-object": 200,
               "seq.silence-limit-follows-the-request": 16})
+    # silence measured in seconds inside a pending chain (replies received in time), timeouts on both sides of the poll interval
+    r.update({"long.silence-seconds-below-limit": 56, "pending-silence-seconds.reply-delivered": 1000,
+              "pending-silence-seconds.reply-delivered:second-half-of-the-limit": 500,
+              "pending-silence-seconds.reply-delivered:timeout-below-poll-interval": 500,
+              "pending-silence-seconds.reply-delivered:timeout-below-poll-interval+client-default": 200,
+              "pending-silence-seconds.reply-delivered:timeout-below-poll-interval+per-request-override": 200,
+              "pending-silence-seconds.reply-delivered:later-than-limit-in-polls-x-timeout": 300,
+              "seq.later-use.reply-after-seconds-of-silence": 300,
+              "seq.later-use.reply-after-seconds-of-silence:timeout-below-poll-interval": 100})
     return r
 
 
@@ -105,14 +119,36 @@ def event_bytes(letter: str, idx: int, req: bytes = REQ, other: int = 0x4321) ->
     raise AssertionError(letter)
 
 
-async def one_run(script: list[str], max_retry: int, timeout: float, override: bool, raw: bool = False) -> dict[str, Any]:
+# Silence measured in SECONDS: a reply that directly follows a responsePending (and is therefore read inside the pending chain)
+# arrives after this fraction of the silence limit max(timeout, 20 s) of the request - received in time, whatever the timeout is
+# (also one below the client's poll interval) and however the client slices the waiting into polls.
+PENDING_DELAY_FRACTIONS = [0.05, 0.3, 0.7, 0.93]
+
+
+def pending_delays(script: list[str] | str, timeout: float, fraction: float | list[float]) -> dict[int, float]:
+    """event index -> seconds of silence before it, for every reply that directly follows a pending"""
+    idxs = [i for i in range(1, len(script)) if script[i - 1] == "P" and script[i] in cm.REPLIES]
+    fr = fraction if isinstance(fraction, list) else [fraction] * len(idxs)
+    return {i: f * cm.silence_seconds(timeout) for i, f in zip(idxs, fr)}
+
+
+def delayed(events: list[tuple[Any, ...]], delays: dict[int, float] | None) -> list[tuple[Any, ...]]:
+    events = list(events)
+    for i, d in (delays or {}).items():
+        assert events[i][0] == "reply"
+        events[i] = ("reply", events[i][1], d)
+    return events
+
+
+async def one_run(script: list[str], max_retry: int, timeout: float, override: bool, raw: bool = False,
+                  delays: dict[int, float] | None = None) -> dict[str, Any]:
     import asyncio
 
     from gallia.services.uds.core import service
     from gallia.services.uds.core.client import UDSClient, UDSRequestConfig
     from vf.scripted_transport import ScriptedTransport
 
-    events = [event_bytes(c, i) for i, c in enumerate(script)]
+    events = delayed([event_bytes(c, i) for i, c in enumerate(script)], delays)
     tr = ScriptedTransport(events)
     if override:
         cl = UDSClient(tr, timeout=7.0, max_retry=(max_retry + 2) % 4)
@@ -151,13 +187,16 @@ def classify(out: dict[str, Any]) -> tuple[str, Any]:
     return "raises:" + type(e).__name__, None
 
 
-def check_case(ctx: Any, script: list[str], max_retry: int, timeout: float, override: bool, raw: bool | None = None) -> None:
+def check_case(ctx: Any, script: list[str], max_retry: int, timeout: float, override: bool, raw: bool | None = None,
+               delays: dict[int, float] | None = None) -> None:
     if raw is None:
         raw = override  # every script runs in both request forms (typed with client defaults, raw with per-request overrides)
     case = {"script": "".join(script) if len(script) <= 40 else rle(script), "max_retry": max_retry, "timeout": timeout, "override": override, "raw": raw}
+    if delays:
+        case["delays"] = {str(i): d for i, d in delays.items()}
     ctx.reach("form.raw" if raw else "form.typed")
     nontrivial = any(c not in "FN" for c in script)
-    ctx.case(("".join(script), max_retry, timeout, override, raw), nontrivial=nontrivial)
+    ctx.case(("".join(script), max_retry, timeout, override, raw) + ((tuple(sorted(delays.items())),) if delays else ()), nontrivial=nontrivial)
     if script:
         ctx.reach(f"pos.first:{script[0]}")
         ctx.reach(f"pos.last:{script[-1]}")
@@ -167,23 +206,38 @@ def check_case(ctx: Any, script: list[str], max_retry: int, timeout: float, over
         ctx.reach("override.timeout")
         ctx.reach("override.max_retry")
     try:
-        out = vtime.run(one_run(script, max_retry, timeout, override, raw))
+        out = vtime.run(one_run(script, max_retry, timeout, override, raw, delays))
     except vtime.Deadlock:
         ctx.violation("client/blocks-forever", "request() can never complete (nothing scheduled, nothing readable)", case)
         return
-    judge(ctx, case, script, [event_bytes(c, i) for i, c in enumerate(script)], max_retry, timeout, out, REQ)
+    judge(ctx, case, script, [event_bytes(c, i) for i, c in enumerate(script)], max_retry, timeout, out, REQ, delays=delays,
+          source="per-request-override" if override else "client-default")
 
 
 def judge(ctx: Any, case: dict[str, Any], script: list[str], events: list[tuple[Any, ...]], max_retry: int, timeout: float,
-          out: dict[str, Any], req_pdu: bytes, tag: str = "") -> None:
+          out: dict[str, Any], req_pdu: bytes, tag: str = "", delays: dict[int, float] | None = None, source: str = "") -> None:
     """One recorded exchange (wire log + outcome of request()) against the reference machine for (script, max_retry, timeout):
-    the effective values of THIS request.  `tag` is appended to every mechanism key (later exchanges of a sequence)."""
+    the effective values of THIS request.  `tag` is appended to every mechanism key (later exchanges of a sequence).
+    `delays`: seconds of silence before a reply (in time by construction: the reference machine refuses others); `source`: where
+    the effective timeout of this request comes from (reach counters only)."""
 
     def violation(key: str, what: str, witness: Any) -> None:
         ctx.violation(key + tag, what, witness)
 
-    allowed = cm.outcomes(script, max_retry, timeout)
+    allowed = cm.outcomes(script, max_retry, timeout, delays)
     log = out["log"]
+    # replies that arrived after seconds of silence inside a pending chain and were delivered to the client
+    for i, d in (delays or {}).items():
+        if i > 0 and any(l[0] == "read" and l[5] == i and isinstance(l[4], bytes) for l in log):
+            ctx.reach("pending-silence-seconds.reply-delivered")
+            if timeout < cm.POLL:
+                ctx.reach("pending-silence-seconds.reply-delivered:timeout-below-poll-interval")
+                ctx.reach(f"pending-silence-seconds.reply-delivered:timeout-below-poll-interval+{source}")
+                if d > cm.silence_polls(timeout)[1] * timeout:
+                    # a client that counts the limit in polls but lets a poll last only `timeout` would have given up
+                    ctx.reach("pending-silence-seconds.reply-delivered:later-than-limit-in-polls-x-timeout")
+            if d > 0.5 * cm.silence_seconds(timeout):
+                ctx.reach("pending-silence-seconds.reply-delivered:second-half-of-the-limit")
     writes = [l for l in log if l[0] == "write"]
     reconnects = [l for l in log if l[0] == "reconnect"]
     tx = len(writes)
@@ -209,7 +263,7 @@ def judge(ctx: Any, case: dict[str, Any], script: list[str], events: list[tuple[
     # (b,c) transmission count and outcome
     cand = [a for a in allowed if a[0] == tx]
     okinds = {a[1] for a in cand}
-    pos_in_script = first_special(script)
+    pos_in_script = first_special(script) + ("+seconds-of-silence" if any(i > 0 for i in (delays or {})) else "")
     if kind.startswith("raises:"):
         if "error" in okinds:
             pass  # pending overflow may end with any exception
@@ -260,12 +314,16 @@ def judge(ctx: Any, case: dict[str, Any], script: list[str], events: list[tuple[
 #         "request": "same-reassigned" | "same-unchanged" | "fresh",  one request object whose identifier is re-assigned between the
 #                                                                     exchanges | the same object sent again | a new object each time
 #         "raw": bool,                                                RawRequest (pdu setter) or ReadDataByIdentifierRequest (data_identifier setter)
-#         "exchanges": [{"script": str, "client_max_retry": int, "client_timeout": float, "did": int, "slow": bool}, ...]}
+#         "exchanges": [{"script": str, "client_max_retry": int, "client_timeout": float, "did": int, "slow": bool,
+#                        "pending_delay": float|None}, ...]}    slow: the first reply arrives after SLOW_FRACTION of the effective
+#                                                                 timeout; pending_delay: every reply that directly follows a pending
+#                                                                 arrives after this fraction of the silence limit max(timeout, 20 s)
 #
 # Every exchange is judged on its own against the reference machine with the values in force for THAT request: a field the config
 # object sets, else the default of the client the request is sent on at that moment (an unset field of the config stays unset).
 
-SEQ_TIMEOUTS = [0.1, 0.3, 2.0, 30.0]
+SEQ_TIMEOUTS = [0.05, 0.1, 0.3, 2.0, 30.0]  # three of them below the client's poll interval
+RAND_TIMEOUTS = [0.05, 0.1, 0.2, 0.3, 2.0, 30.0]
 SLOW_FRACTION = 0.6  # a "slow" first reply arrives after this fraction of the effective timeout: in time
 
 
@@ -285,9 +343,16 @@ def seq_events(spec: dict[str, Any], k: int) -> list[tuple[Any, ...]]:
     # a same-service stale reply names the identifier this request object carried in the previous exchange (if it differs)
     other = spec["exchanges"][k - 1]["did"] if k > 0 and spec["exchanges"][k - 1]["did"] != x["did"] else (0x4321 if x["did"] != 0x4321 else 0x4322)
     events = [event_bytes(c, i, seq_request_pdu(x), other) for i, c in enumerate(x["script"])]
-    if x.get("slow") and events and events[0][0] == "reply":
-        events[0] = ("reply", events[0][1], SLOW_FRACTION * effective(spec, k)[1])
-    return events
+    return delayed(events, seq_delays(spec, k))
+
+
+def seq_delays(spec: dict[str, Any], k: int) -> dict[int, float]:
+    x = spec["exchanges"][k]
+    to = effective(spec, k)[1]
+    delays = pending_delays(x["script"], to, x["pending_delay"]) if x.get("pending_delay") else {}
+    if x.get("slow") and x["script"] and x["script"][0] in cm.REPLIES:
+        delays[0] = SLOW_FRACTION * to
+    return delays
 
 
 def load_script(tr: Any, events: list[tuple[Any, ...]]) -> None:
@@ -380,7 +445,12 @@ def check_sequence(ctx: Any, spec: dict[str, Any]) -> None:
             if cm.outcomes(script, pmr, to) != cm.outcomes(script, mr, to):
                 ctx.reach("seq.later-use.discriminates:max_retry")
             slow_reply = bool(x.get("slow")) and bool(script) and script[0] in "BPMXNF"
-            if (slow_reply and pto < SLOW_FRACTION * to) or cm.outcomes(script, mr, pto) != cm.outcomes(script, mr, to):
+            if any(i > 0 for i in seq_delays(spec, k)):
+                ctx.reach("seq.later-use.reply-after-seconds-of-silence")
+                if to < cm.POLL:
+                    ctx.reach("seq.later-use.reply-after-seconds-of-silence:timeout-below-poll-interval")
+            late_for_prev = any(i > 0 and not cm.in_time_after_pending(d, pto) for i, d in seq_delays(spec, k).items())
+            if (slow_reply and pto < SLOW_FRACTION * to) or late_for_prev or cm.outcomes(script, mr, pto) != cm.outcomes(script, mr, to):
                 ctx.reach("seq.later-use.discriminates:timeout")
             if spec["request"] == "same-reassigned" and x["did"] != xs[k - 1]["did"]:
                 ctx.reach("seq.later-use.request:identifier-reassigned")
@@ -394,7 +464,8 @@ def check_sequence(ctx: Any, spec: dict[str, Any]) -> None:
                 ctx.reach("seq.later-use.request:fresh-object")
         kind, _ = classify(out)
         prev_kind = "return" if kind == "return" else "missing" if kind == "missing" else "illegal-or-error"
-        judge(ctx, case, script, seq_events(spec, k), mr, to, out, seq_request_pdu(x), tag="/later-exchange-of-a-sequence" if k > 0 else "")
+        judge(ctx, case, script, seq_events(spec, k), mr, to, out, seq_request_pdu(x), tag="/later-exchange-of-a-sequence" if k > 0 else "",
+              delays=seq_delays(spec, k), source="per-request-override" if spec["cfg"]["timeout"] is not None else "client-default")
 
 
 def short_scripts(maxlen: int) -> list[str]:
@@ -423,7 +494,8 @@ def draw_sequence(rng: Any, cfg_pattern: int, later_script: str | None, randlen:
         mrs.append(rng.choice([m for m in range(4) if m != mrs[-1]]) if rng.random() < 0.85 else mrs[-1])
         tos.append(rng.choice([t for t in SEQ_TIMEOUTS if t != tos[-1]]) if rng.random() < 0.85 else tos[-1])
     xs = [{"script": later_script if (k == 1 and later_script is not None) else script(), "client_max_retry": mrs[k], "client_timeout": tos[k],
-           "did": dids[k], "slow": rng.random() < 0.5} for k in range(n)]
+           "did": dids[k], "slow": rng.random() < 0.5, "pending_delay": rng.choice(PENDING_DELAY_FRACTIONS) if rng.random() < 0.5 else None}
+          for k in range(n)]
     return {"cfg": {"max_retry": rng.randrange(4) if cfg_pattern & 1 else None, "timeout": rng.choice(SEQ_TIMEOUTS) if cfg_pattern & 2 else None},
             "clients": rng.choice(["same", "other"]), "request": request, "raw": rng.random() < 0.5, "exchanges": xs}
 
@@ -487,8 +559,11 @@ def run(ctx: Any, params: dict[str, Any]) -> None:
             script = rng.choices(LETTERS, weights=weights, k=ln)
             mr = rng.randrange(4)
             override = rng.random() < 0.5
-            timeout = rng.choice([0.1, 0.3, 2.0, 30.0])
-            check_case(ctx, script, mr, timeout, override, rng.random() < 0.5)
+            timeout = rng.choice(RAND_TIMEOUTS)
+            # half of the scripts: replies that directly follow a pending arrive after seconds of silence (each its own fraction of the limit)
+            after_pending = pending_delays(script, timeout, 0.0)
+            delays = pending_delays(script, timeout, [rng.choice(PENDING_DELAY_FRACTIONS) for _ in after_pending]) if rng.random() < 0.5 else None
+            check_case(ctx, script, mr, timeout, override, rng.random() < 0.5, delays or None)
             if i % 400 == 0:
                 ctx.sample({"script": "".join(script), "max_retry": mr, "timeout": timeout, "override": override})
             if ctx.out_of_time():
@@ -517,6 +592,15 @@ def run(ctx: Any, params: dict[str, Any]) -> None:
                 check_sequence(ctx, spec)
                 ctx.reach("seq.silence-limit-follows-the-request")
     else:
+        # silence in seconds: [pending, seconds of silence below the limit, (pending, silence,) final reply] for timeouts on both
+        # sides of the poll interval, as client default and as per-request override
+        for timeout in (0.05, 0.1, 0.2, 0.49, 0.5, 2.0, 30.0):
+            for mr in (0, 1):
+                for f in PENDING_DELAY_FRACTIONS:
+                    for override in (False, True):
+                        for script in [["P", "F"], ["P", "P", "N"], ["P", "T", "P", "B"]] + ([["T", "P", "F"], ["P", "C", "P", "F"]] if mr else []):
+                            check_case(ctx, script, mr, timeout, override, delays=pending_delays(script, timeout, f))
+                    ctx.reach("long.silence-seconds-below-limit")
         for timeout in (0.1, 2.0, 30.0):
             lo, hi = cm.silence_polls(timeout)
             for mr in (0, 1):
@@ -553,4 +637,5 @@ def replay(ctx: Any, witness: dict[str, Any]) -> None:
     script: list[str] = []
     for m in re.finditer(r"([A-Z])(?:\*(\d+))?", s):
         script += [m.group(1)] * int(m.group(2) or 1)
-    check_case(ctx, script, witness["max_retry"], witness["timeout"], witness["override"], witness.get("raw"))
+    check_case(ctx, script, witness["max_retry"], witness["timeout"], witness["override"], witness.get("raw"),
+               {int(i): d for i, d in witness["delays"].items()} if witness.get("delays") else None)
